@@ -1,8 +1,10 @@
 (* C20 — separately created blocks share no state.
    Model: Heap.v (an explicit heap of list objects and item objects; blocks hold references).
-   Scope, as the property words it: blocks created by SEPARATE constructor or decode calls; a caller
-   who hands the same list object to two constructors, or puts the same track object into two
-   blocks, has created the sharing himself (op_ok / the hypothesis of C20_frame on HEdit). *)
+   Scope, as the property words it: blocks created by SEPARATE constructor or decode calls, with or
+   without an explicit item list — also the SAME list handed to two constructors (a constructor takes the
+   items over into a list of the block's own, C20_two_blocks_from_one_list); only a caller who puts the
+   same track OBJECT into two blocks has created that sharing himself (the hypothesis of C20_frame on
+   HEdit). *)
 From Model Require Import Base Heap Buffers.
 From Proofs Require Import HeapFacts BufferFacts.
 Open Scope Z_scope.
@@ -53,6 +55,49 @@ Proof.
   - eexists. eexists. split; [reflexivity|split; [reflexivity|lia]].
 Qed.
 Print Assumptions C20_decode_twice.
+
+(* one caller-side list handed to two constructors: both blocks hold its items, each in a container of its own —
+   adding to or removing from one changes neither the other block nor the caller's list *)
+Theorem C20_two_blocks_from_one_list : forall s lid its h1 h2, Sep s -> h1 <> h2 ->
+  h_blocks s h1 = None -> h_blocks s h2 = None -> h_lists s lid = Some its ->
+  let s2 := h_step (h_step s (HNew h1 (Some lid))) (HNew h2 (Some lid)) in
+  content s2 h1 = Some (map (fun it => (it, h_vers s it)) its) /\ content s2 h2 = content s2 h1 /\
+  (exists l1 l2, h_blocks s2 h1 = Some l1 /\ h_blocks s2 h2 = Some l2 /\ l1 <> l2 /\ l1 <> lid /\ l2 <> lid) /\
+  forall o, (o = HAdd h1 \/ exists i, o = HRemove h1 i) ->
+            content (h_step s2 o) h2 = content s2 h2 /\ h_lists (h_step s2 o) lid = Some its.
+Proof.
+  intros s lid its h1 h2 HS Hne Hb1 Hb2 Hl s2.
+  destruct (sep_lst s HS lid its Hl) as [Hlid _].
+  set (s1 := h_step s (HNew h1 (Some lid))) in *.
+  assert (E1 : s1 = mkH (h_next s + 1) (fupd (h_next s) its (h_lists s)) (h_vers s) (fupd h1 (h_next s) (h_blocks s)))
+    by (now apply new_given_eq).
+  assert (Hl1 : h_lists s1 lid = Some its) by (rewrite E1; cbn [h_lists]; rewrite fupd_other by lia; exact Hl).
+  assert (Hs1 : Sep s1) by (apply Sep_step; [exact HS|cbn; split; [exact Hb1|now exists its]]).
+  assert (E2 : s2 = mkH (h_next s1 + 1) (fupd (h_next s1) its (h_lists s1)) (h_vers s1) (fupd h2 (h_next s1) (h_blocks s1)))
+    by (now apply new_given_eq).
+  assert (Hs2 : Sep s2).
+  { apply Sep_step; [exact Hs1|]. cbn [op_ok]. split; [|now exists its].
+    rewrite E1. cbn [h_blocks]. rewrite fupd_other by congruence. exact Hb2. }
+  assert (N1 : h_next s1 = h_next s + 1) by (now rewrite E1).
+  assert (B1 : h_blocks s2 h1 = Some (h_next s)).
+  { rewrite E2. cbn [h_blocks]. rewrite fupd_other by exact Hne. rewrite E1. cbn [h_blocks]. apply fupd_same. }
+  assert (B2 : h_blocks s2 h2 = Some (h_next s + 1)).
+  { rewrite E2. cbn [h_blocks]. rewrite fupd_same. now rewrite N1. }
+  assert (L1 : h_lists s2 (h_next s) = Some its).
+  { rewrite E2. cbn [h_lists]. rewrite fupd_other by lia. rewrite E1. cbn [h_lists]. apply fupd_same. }
+  assert (L2 : h_lists s2 (h_next s + 1) = Some its).
+  { rewrite E2. cbn [h_lists]. rewrite N1. apply fupd_same. }
+  assert (L0 : h_lists s2 lid = Some its).
+  { rewrite E2. cbn [h_lists]. rewrite fupd_other by lia. exact Hl1. }
+  assert (V : h_vers s2 = h_vers s) by (rewrite E2, E1; reflexivity).
+  repeat split.
+  - unfold content. now rewrite B1, L1, V.
+  - unfold content. now rewrite B1, B2, L1, L2.
+  - exists (h_next s), (h_next s + 1). repeat split; try assumption; lia.
+  - destruct H as [-> | [i ->]]; (apply frame; [exact Hs2|exact I|cbn; congruence|intros; discriminate]).
+  - destruct H as [-> | [i ->]]; cbn [h_step]; rewrite B1, L1; cbn [h_lists]; rewrite fupd_other by lia; exact L0.
+Qed.
+Print Assumptions C20_two_blocks_from_one_list.
 
 (* non-vacuity: three blocks, interleaved edits *)
 Example C20_example :
